@@ -69,7 +69,7 @@ func (c *check) Init(tier string, seed int64) engine.Space {
 	}
 }
 
-var nopt = cssn.Options{}
+var nopt = cssn.Options{MergeWS: true}
 
 func features(toks []pa.Token) []string {
 	// feature tags computed from the (input) token list
